@@ -37,7 +37,7 @@ func calibrate(cache string) (map[int][]hint, error) {
 	for i := range snippets {
 		idx = append(idx, i)
 	}
-	lines, snipAt, relAt := buildFile("A", 0, idx)
+	lines, snipAt, relAt := buildFile("A", 0, idx, "")
 	dir, err := os.MkdirTemp("", "c10cal-")
 	if err != nil {
 		return nil, err
@@ -387,6 +387,19 @@ func replayFile(t *testing.T, f, test string) {
 			return
 		}
 		ev.Case(ev.Hash("exit", string(b)), true, "exit_status_case")
+		msg = m
+	} else if strings.HasSuffix(f, ".pairs.json") {
+		ext = "pairs.json"
+		var pc PairCase
+		if err := json.Unmarshal(b, &pc); err != nil {
+			ev.Infra("decode %s: %v", f, err)
+			return
+		}
+		m, invalid, infra := evalPairs(&pc, cache)
+		if infra != "" || invalid != "" {
+			ev.Infra("replay %s: %s%s", f, infra, invalid)
+			return
+		}
 		msg = m
 	} else {
 		var c Case
